@@ -86,6 +86,15 @@ _RLOCK_TYPE = type(threading.RLock())
 _LOCK_TYPE = type(threading.Lock())
 
 
+def _table_lock():
+    """factory of the replaced lock tables: in the original it is Python code (`lambda: RLock()`), so a thread switch can happen
+    INSIDE it, between the look-up that missed and the insertion of the new lock - it is a decision point here too"""
+    me = getattr(_current, "m", None)
+    if me is not None and _controller is not None:
+        _controller.yield_point(me)
+    return CoopRLock()
+
+
 def install_coop_locks():
     """Replace lock factories and module-level lock instances in all loaded memento modules."""
     from collections import defaultdict
@@ -103,7 +112,7 @@ def install_coop_locks():
             elif attr == "threading" and val is threading:
                 pass
             elif isinstance(val, defaultdict) and attr.endswith("_mutex"):
-                setattr(mod, attr, defaultdict(CoopRLock))
+                setattr(mod, attr, defaultdict(_table_lock))
                 replaced.append("%s.%s (table)" % (name, attr))
     return replaced
 
